@@ -121,9 +121,15 @@ def run_variants(prop, variants, verbose=True):
 
 
 def main(argv):
+    save = '--save' in argv
+    argv = [a for a in argv if a != '--save']
     props = ['C%02d' % i for i in range(1, 21)] if argv[0] == 'all' else [argv[0]]
     sub = argv[1] if len(argv) > 1 else None
     bad = 0
+    allres = {}
+    resfile = os.path.join(VERIF, 'selftest_results.json')
+    if save and os.path.exists(resfile):
+        allres = json.load(open(resfile))
     for p in props:
         vs = load_variants(p)
         if sub:
@@ -133,6 +139,10 @@ def main(argv):
         print("%s: %d variants" % (p, len(vs)))
         rs = run_variants(p, vs)
         bad += sum(1 for r in rs if r['status'] in ('MISSED', 'FALSE-ALARM'))
+        if save and not sub:
+            allres[p] = [{k: r.get(k) for k in ('variant', 'status', 'expected_rule', 'fired', 'desc')} for r in rs]
+    if save:
+        json.dump(allres, open(resfile, 'w'), indent=1)
     return 1 if bad else 0
 
 
